@@ -90,7 +90,7 @@ func (P *Prog) Effects() *Effects {
 	g := P.CG()
 	// mayWrite: fixpoint
 	for _, fn := range P.RepoFns {
-		Instrs(fn, func(in ssa.Instruction) {
+		InstrsRaw(fn, func(in ssa.Instruction) {
 			if ci, ok := in.(ssa.CallInstruction); ok && isStoreWrite(ci.Common()) {
 				E.mayWrite[fn] = true
 			}
@@ -287,7 +287,7 @@ func (E *Effects) analyse(fn *ssa.Function, idx int) *dirtyWitness {
 	// number the writing calls
 	var calls []ssa.CallInstruction
 	num := map[ssa.Instruction]int{}
-	Instrs(fn, func(in ssa.Instruction) {
+	InstrsRaw(fn, func(in ssa.Instruction) {
 		if ci, ok := in.(ssa.CallInstruction); ok {
 			if _, isDefer := in.(*ssa.Defer); isDefer {
 				return
